@@ -496,3 +496,21 @@ _ROUND9 = {
 }
 for _k, _v in _ROUND9.items():
     PROPS[_k]["rule"] += " " + _v
+
+_ROUND10 = {
+    "C01": "Also: the accepted states as config.Load reads them from a list option written with blank items; odd registrations coming and going in the same histories; pairs of instances on one node whose ids start alike (web / web-canary) with maintenance, check changes and de-/re-registration of either.",
+    "C02": "Also: the route answering each lookup (not only whether there is one) compared between the active and the last good table, with the admin endpoints listing the active table in between.",
+    "C03": "Also: host patterns without a star ({eu,us}.foo.com, api[0-9].foo.com, app?.example.org) against request hosts longer or shorter than the pattern text; glob.cache.size values through main.go's wiring (a size start-up accepts must route).",
+    "C04": "Also: hosts that the add and weight commands spell in their own mix of cases; a tcp-dynamic listener with a route for one exact address and a :port route with 2-4 targets, connections to both in generated orders.",
+    "C05": "Also: del/weight selectors that name a tag twice.",
+    "C06": "Also: shares per upstream on tcp, tcp+sni, https+tcp+sni and http listeners (one lookup per connection).",
+    "C07": "Also: a websocket upgrade the upstream refuses (status, X-Why header and body reach the client); no-route pages with leading/trailing white space, also as the file backend delivers them.",
+    "C09": "Also: websocket tunnels through a proxy with proxy.dialtimeout configured, quiet for longer than that.",
+    "C11": "Also: type=vault-pki against a minimal Vault: the certificate the source renews on its own timer is what later handshakes present.",
+    "C14": "Also: pairs of instances on one node whose ids start alike, with maintenance of either.",
+    "C15": "Also: proxy.auth schemes with refresh=-5s / 0s / 3s in the run-ability domain.",
+    "C18": "Also: a deregistration grace period longer than the wait configured next to it.",
+    "C20": "Also: $response_body_size when the client connection stops taking bytes in the middle of the body.",
+}
+for _k, _v in _ROUND10.items():
+    PROPS[_k]["rule"] += " " + _v
